@@ -23,7 +23,7 @@ RULE = ('a case = an initial Loop tree (depth <= 3, <= 3 children per node, coun
         'non-constant leaf waveforms with dyadic durations, optional measurements) + a history of editing/query '
         'operations (quick: <= 12, thorough: <= 30) whose target nodes are chosen by selectors resolved on the real tree; '
         'arguments include boundary values (negative / out-of-range indices, empty / extended / negative-step slices, '
-        'count 0, unroll of the root, merge with measurements).  Plus exhaustive histories over a fixed 18-operation '
+        'count 0, unroll of the root, merge with measurements).  Plus exhaustive histories over a fixed 19-operation '
         'alphabet on seed trees (quick: length 2 on 2 trees, thorough: length <= 2 on 3 trees, length 3 on one); roll-centred histories; == against a structural copy that is left unchanged or changed in exactly one respect.  After EVERY operation '
         'every reachable node is observed (reported duration, parent_index, parent identity, locate(get_location())).  '
         'Round 2: forest histories - the harness keeps references to nodes (hold), removes them from the program in '
@@ -43,6 +43,11 @@ RULE = ('a case = an initial Loop tree (depth <= 3, <= 3 children per node, coun
         'Round 5: alias2 - a held child assigned to ANOTHER position of its own parent, the replaced sibling observed and '
         'edited; every forest case that can fall under a known finding is generated twice, the twin (CCorrOnly) is exempt '
         'from check_spec and judged by check_corr alone, so behaviour inside the known-finding classes is still compared.  '
+        'Round 6: add_measurements is an operation of the history alphabet (random and exhaustive histories; 19-operation '
+        'alphabet); wrap / wrap2 / wrapheld - a new loop built AROUND held children (1 or 2 levels; a leaf, an inner node, a '
+        'child of an inner node, a child of a held tree outside the program, two neighbours together) is assigned to their own '
+        'position by int / negative int / slice / extended slice in ONE step, durations read before, the wrapped node edited '
+        'afterwards, then the wrapper unrolled / split / edited.  '
         'Non-trivial = history with >= 2 effective (non-query, non-raising) edits and >= 1 duration query before an edit; '
         'distinct = distinct canonical JSON of the case.')
 TRUSTED = [
@@ -1081,6 +1086,18 @@ def _norm_op(op, volvals):
     return op
 
 
+def _unshare(root, held, snap):
+    """a node outside the program whose measurement list OBJECT is also the list of a program node (left behind by
+    _merge_single_child) gets a private list with the contents it had before the step"""
+    owners = {id(n._measurements) for n, _ in _live(root) if n._measurements is not None}
+    main = {id(n) for n, _ in _live(root)}
+    for m in held:
+        for n, _ in _live(m):
+            if id(n) not in main and n._measurements is not None and id(n._measurements) in owners:
+                old = snap.get(id(n), list(n._measurements))
+                n._measurements = None if old is None else list(old)
+
+
 def run_forest(case):
     try:
         with vlib.time_limit(20), warnings.catch_warnings():
@@ -1114,6 +1131,12 @@ def run_forest(case):
                 keep.extend(n for n, _ in live)
                 for m in held:
                     keep.extend(n for n, _ in _live(m))
+                # round 6: _merge_single_child extends the child's measurement LIST OBJECT in place and hands it to the parent;
+                # the emptied child (which the caller may hold) keeps referencing it.  Shared list objects are not modelled
+                # (C02's business): a held node outside the program that ends up sharing its list with a program node gets
+                # its own copy back (contents as before the step) - see _unshare
+                snap = {id(n): (None if n._measurements is None else list(n._measurements))
+                        for t in [root] + held for n, _ in _live(t)}
                 out, eq, flags = 'KDone', None, {}
                 kind = fo['f']
                 base = None
@@ -1245,6 +1268,7 @@ def run_forest(case):
                     caller_aliased = True
                 if caller_aliased:
                     flags['aliased'] = True
+                _unshare(root, held, snap)
                 try:
                     st = {'f': rf, 'out': out, 'eq': eq, 'tree': observe(root), 'held': held_obs(), 'flags': flags}
                 except TooLarge:
@@ -1621,26 +1645,30 @@ MANIFEST = {
     'level_text': 'Proof: heap model of the concrete Loop/Node object state with every public editing operation as a heap '
                   'transformer.  Proved for all heaps, nodes and arguments (unbounded, by induction; no axioms): every '
                   'constructed tree satisfies the invariant Inv (cached duration = recomputed, recorded position = position, '
-                  'parent = lister); one step and hence every finite history over the 22-operation alphabet preserves it '
+                  'parent = lister); one step and hence every finite history over the 23-operation alphabet preserves it '
                   '(C09_step / C09_history): append_child, __setitem__ with an int and with every slice form, setters '
-                  '(incl. float counts), memoising queries, unroll, unroll_children, split_one_child, encapsulate, merge, '
+                  '(incl. float counts), memoising queries, add_measurements (round 6), unroll, unroll_children, split_one_child, encapsulate, merge, '
                   'cleanup, reverse_inplace, roll_constant_waveforms, copies, ==, rejected calls - UNDER TWO HYPOTHESES: '
                   'guard_C09_args (argument domain minimal_waveform_quanta >= 1) and run_ok (no step of the model run ends '
-                  'in the model artefacts "out of fuel" / "dangling id"; proved removable only for histories over setters and '
-                  'queries, C09_history_basic_total; otherwise tested on every generated case).  Inserted values are fresh '
+                  'in the model artefacts "out of fuel" / "dangling id"; proved removable only for histories over setters, '
+                  'queries and add_measurements, C09_history_basic_total / C09_step_add_measurements; otherwise tested on every generated case).  Inserted values are fresh '
                   'trees or copies.  Round 5: C09_property states the three bookkeeping clauses end to end (after any such '
                   'history every live node reports the recomputed duration, get_location/locate find the node itself along '
                   'the path from the root - C09_location_roundtrip -, every listed child records lister and index); '
-                  'non-trivial non-vacuity witnesses (19-operation history, each failing-call kind).  add_measurements: per '
-                  'operation.  C09_failed_call_no_effect: a failing x[idx] = v / x[a:b:st] = vals (ValueError) / float count '
+                  'non-trivial non-vacuity witnesses (19-operation history, each failing-call kind).  Round 6: '
+                  'C09_flatten_preserves - flatten_and_balance(depth) on any live node, any depth, keeps Inv and the node live '
+                  '(per operation, under ok_result; not part of the history alphabet); C09_failed_unroll_no_effect - a '
+                  'rejected unroll / unroll_children leaves the heap unchanged and raises only the documented exceptions.  '
+                  'C09_failed_call_no_effect: a failing x[idx] = v / x[a:b:st] = vals (ValueError) / float count '
                   'changes nothing, also for held values; refuted for the recursive reverse_inplace.  Loop.__eq__ reads '
                   'structure/counts/waveforms/measurements only and answers true exactly for structurally equal subtrees '
                   '(volatile counts: identity tag and multiplier).  The round-2 forest statement is proved FALSE for held '
                   'copies with an explicit parent.  NOT proved (tested only, by check_corr against the model and by '
                   'check_spec on the real objects): run_ok for structural operations (C09_history_total_statement), '
-                  'flatten_and_balance, every operation on nodes that dropped out of the program or are handed back by the '
-                  'caller (C09_forest_statement; its guard excludes ALL re-insertions of held nodes, more than the two known '
-                  'findings), the composition Inv -> check_spec through the observation function (clause by clause only: '
+                  'flatten_and_balance INSIDE histories (proved per operation only), every operation on nodes that dropped out '
+                  'of the program or are handed back by the caller, incl. a new loop built around program nodes taking their '
+                  'place (FWrapInsert, round 6) (C09_forest_statement; its guard excludes ALL re-insertions of held nodes, more '
+                  'than the two known findings), the composition Inv -> check_spec through the observation function (clause by clause only: '
                   'C09_reported_is_recomputed, C09_location_roundtrip, Inv links).  Not covered at all: make_compatible.',
     'level_note': 'Trusted: Coq kernel + vm_compute; the hand-written model (tied to /repo by correspondence only, no '
                   'translator); abstract waveforms; parent weak references as plain ids (objects kept alive); theorems '
